@@ -43,7 +43,7 @@ theorem C14_logOK_applyDecls (base : RemoteSrc) (decls : List Decl) (st : BState
 theorem C14_logOK_drain (w : World) (fuel : Nat) (ph : Bool) (st : BState) (ds : List Diag)
     (st' : BState) (ds' : List Diag) (h : LogOK st) (hd : drain w fuel ph st ds = .done st' ds') :
     LogOK st' :=
-  drain_inv (logOK_stepInv w) fuel ph st ds st' ds' h hd
+  drain_invL (logOK_stepInv w) fuel ph st ds st' ds' h hd
 
 /-- **C14_logOK_applyOp.** -/
 theorem C14_logOK_applyOp (w : World) (fuel : Nat) (st : BState) (op : Op) (h : LogOK st) :
@@ -263,14 +263,14 @@ theorem C14_source_already (w : World) (fuel : Nat) (ops : List Op) (r : RegPkg)
 
 /-! ## non-vacuity
 
-On the example world (`exWorld`, `exOps` in Lemmas/BuilderLog: two packages with a cycle between
+On the example world (`exWorldL`, `exOpsL` in Lemmas/BuilderLog: two packages with a cycle between
 `A` and `B//sub`, a registry package listed in shuffled order): the run completes within 40 units
 of fuel, and the trace is the expected one. -/
 
 /-- the first operation alone: oldest-first trace.  `A` is fetched once although it is needed
 twice (the cycle), `B` once although three artefacts live in it; the registry listing and the
 source of 1.1.0 (the newest allowed; 2.0.0 is newer but not allowed) are requested once. -/
-example : (runOps exWorld 40 BState.init (exOps.take 1)).1.log.reverse =
+example : (runOps exWorldL 40 BState.init (exOpsL.take 1)).1.log.reverse =
     [.fetchStart exPkgA, .fetchCall exPkgA, .fetchOk exPkgA,
      .analyse ⟨exPkgA, []⟩ 0, .traceDiags 1,
      .fetchAlready exPkgA, .analyse ⟨exPkgA, "child".toList⟩ 0,
@@ -284,8 +284,8 @@ example : (runOps exWorld 40 BState.init (exOps.take 1)).1.log.reverse =
 
 /-- all three operations: the second one only adds a `versAlready` (cached listing, no allowed
 version), the third is refused and adds nothing -/
-example : (runOps exWorld 40 BState.init exOps).1.log.length = 23 ∧
-    (runOps exWorld 40 BState.init exOps).1.log.head? = some (.versAlready exReg) := by decide
+example : (runOps exWorldL 40 BState.init exOpsL).1.log.length = 23 ∧
+    (runOps exWorldL 40 BState.init exOpsL).1.log.head? = some (.versAlready exReg) := by decide
 
 /-- the automaton does reject: a call outside a bracket, a second fetch after success, a second
 analysis, an `already` before any success -/
